@@ -183,8 +183,19 @@ func Run(col *core.Collector, prop, tier, variant string, seed uint64, shard, ns
 	})
 	sites := otter.VerifSiteNames()
 	siteTotals := make([]int64, len(sites))
-	for i := shard; i < n; i += nshards {
+	total := n
+	if prop == "C02" {
+		total = n + n/2 // the trials from n on have expiring entries and a clock moved by the workers (linexp.go)
+	}
+	first := shard
+	if os.Getenv("VERIF_LINEXP_ONLY") != "" && prop == "C02" {
+		first = n + shard // (debugging aid: only the trials with expiring entries)
+	}
+	for i := first; i < total; i += nshards {
 		cfg := genTrial(prop, variant, seed, i)
+		if i >= n {
+			cfg = genLinExpTrial(prop, variant, seed, i)
+		}
 		cur.set(cfg)
 		if cfg.Procs > 0 {
 			runtime.GOMAXPROCS(cfg.Procs)
@@ -240,6 +251,34 @@ func Run(col *core.Collector, prop, tier, variant string, seed uint64, shard, ns
 		runtime.GOMAXPROCS(runtime.NumCPU())
 		runC14PairsAll(col, tier, variant, seed, shard, replayDir, wd)
 	}
+}
+
+// genLinExpTrial draws a linearizability trial with expiring entries: write-reset or access-reset expiry,
+// lifetimes from far below to about one timer-wheel tick, a manual clock that the workers move while the
+// others are inside cache calls - by less than a lifetime, by several, and past wheel ticks, so that entries
+// are read, written over, computed on and invalidated while alive, while expired but not swept, and while
+// the sweep is removing them.
+func genLinExpTrial(prop, variant string, seed uint64, i int) TrialCfg {
+	c := genTrial(prop, variant, seed, i)
+	r := core.NewRng(core.Derive(seed, core.StrLabel(prop), core.StrLabel(variant), core.StrLabel("linexp"), uint64(i)))
+	c.Churn = 0
+	c.LinExp = true
+	c.ExpiryTTL = []int64{1000, 1_000_000, 500_000_000, 1 << 30}[r.Intn(4)]
+	c.ExpAccess = r.Chance(1, 2)
+	c.Mix[KAdvance] = 3 + r.Intn(8)
+	if r.Chance(1, 3) {
+		c.Mix[KCleanUp] = 2
+	}
+	c.Exec = r.Intn(2)
+	// the deadline intervals multiply the states the checker has to tell apart: shorter histories, fewer
+	// operations in progress at once
+	if c.G > 8 {
+		c.G = 3 + r.Intn(6)
+	}
+	for c.G*c.Ops/c.Keys > 70 {
+		c.Ops = c.Ops * 2 / 3
+	}
+	return c
 }
 
 // lateClasses: the violation classes of the late-extension scenarios (late.go) that refute a property.
@@ -361,7 +400,11 @@ func judge(col *core.Collector, t *Trial, prop string) (violation string, nontri
 		if p := t.churnViolation.Load(); p != nil {
 			return *p, true
 		}
-		lr := t.CheckLinearizable(t.Finals(f), 20*time.Second)
+		limit := 20 * time.Second
+		if cfg.LinExp {
+			limit = 6 * time.Second
+		}
+		lr := t.CheckLinearizable(t.Finals(f), limit)
 		col.Count("lin.keys_ok", int64(lr.Ok))
 		col.Count("lin.keys_illegal", int64(lr.Illegal))
 		col.Count("lin.keys_unknown", int64(lr.Unknown))
@@ -369,6 +412,16 @@ func judge(col *core.Collector, t *Trial, prop string) (violation string, nontri
 		col.Count("lin.evict_operations", int64(lr.Evicts))
 		col.Count("lin.load_installs", int64(lr.Installs))
 		col.Count("lin.load_installs_bounded_by_waiter", int64(lr.WaiterBounded))
+		if cfg.LinExp {
+			col.Count("linexp.trials", 1)
+			col.Count("linexp.keys_ok", int64(lr.Ok))
+			col.Count("linexp.operations", int64(lr.Ops))
+			col.Count("linexp.ops_with_ambiguous_clock", int64(lr.AmbiguousClock))
+			col.Count("linexp.expiration_removals", int64(lr.Expirations))
+			if cfg.ExpAccess {
+				col.Count("linexp.trials_access_reset", 1)
+			}
+		}
 		col.Max("lin.overlap", int64(lr.MaxOverlap))
 		if lr.Unknown > 0 {
 			col.Inconclusive(fmt.Sprintf("trial %d: %d key histories timed out in the checker", cfg.Index, lr.Unknown))
